@@ -249,8 +249,16 @@ func genCond(r *core.Rand, start int64) (*CondNode, []int64) {
 	nTime := r.Weighted([]int{3, 4, 4, 2, 1})
 	var parts []*CondNode
 	nNon := r.Weighted([]int{1, 4, 3, 1})
+	long := r.Chance(1, 40)
+	if long {
+		// a long conjunction (depth thresholds in whatever strips the old bounds)
+		nNon = r.Range(60, 110)
+	}
 	for i := 0; i < nNon; i++ {
 		k := genNonTime(r, 0)
+		if long {
+			k = genNonTimeLeaf(r)
+		}
 		if k.Kind == "or" && (nNon+nTime > 1) {
 			// an OR group conjoined with anything else is parenthesised (top-level bare OR only when alone)
 			k = &CondNode{Kind: "paren", Kids: []*CondNode{k}}
@@ -268,6 +276,10 @@ func genCond(r *core.Rand, start int64) (*CondNode, []int64) {
 	sh := make([]*CondNode, len(parts))
 	for i, j := range perm {
 		sh[i] = parts[j]
+	}
+	if long && nTime > 0 {
+		// time bounds first: the deepest position of a left-deep AND chain
+		sh = append(append([]*CondNode{}, parts[nNon:]...), parts[:nNon]...)
 	}
 	if len(sh) >= 3 && r.Chance(1, 3) {
 		g := &CondNode{Kind: "paren", Kids: []*CondNode{{Kind: "and", Kids: sh[:2]}}}
